@@ -414,10 +414,13 @@ class OpenFamily(Family):
                 continue
             if r["real"] in ("ok", "null", "abort"):
                 continue
+            if r["real"] == "leak":
+                fails.append(("C18", "opening %d bytes (%s) returned to the caller — a reader that was destroyed again, or NULL — and left a memory mapping behind" % (len(unhx(r["req"].split(" ")[1])), " ".join(r["req"].split(" ")[2:])), i))
+                continue
             fails.append(("C19", "opening %d bytes ended in %s (reads outside the file / crash)" % (len(unhx(r["req"].split(" ")[1])), r["real"]), i))
         return fails
     def tie_props(self, res, idx):
-        return {"C19"}
+        return {"C19", "C18"}
     def nontrivial(self, pid, lines, res):
         return any(r["real"] in ("null", "abort") for r in res) and any(r["real"] == "ok" for r in res)
 
@@ -431,8 +434,14 @@ def mutate_file(rng, good, n):
     io = int.from_bytes(good[L - 512:L - 504], "little")
     for _ in range(n):
         b = bytearray(good)
-        r = rng.below(14)
-        if r >= 12:     # two fields together: the index offset moved close to the trailer AND a length prefix of every width there
+        r = rng.below(15)
+        if r == 14:     # the index block's stored checksum, or a byte of its contents (a verifying open stops or refuses; others open)
+            ln, nn = F.varint(good, io)
+            if ln is not None and io + nn + 4 <= L - 512:
+                at = io + nn + (rng.below(4) if rng.chance(1, 2) or not ln else 4 + rng.below(ln))
+                if at < L - 512:
+                    b[at] ^= 1 << rng.below(8)
+        elif r >= 12:     # two fields together: the index offset moved close to the trailer AND a length prefix of every width there
             g = rng.pick([13, 13, 13, 12, 14, 8, 9, 16, 17, 22, 4, 5])
             io2 = L - 512 - g
             if io2 >= 0:
@@ -700,6 +709,13 @@ class MergerFamily(Family):
     def cases(self, pid, seed, tier, mult, stats):
         for c in self.corpus(pid):
             yield c
+        if pid not in ("C04", "C05"):
+            # tables written by mtbl_source_write (a merger's content copied into a fresh writer): bytes, trailer included,
+            # compared with the writer model
+            for i in range(budget(tier, 60, 700, mult)):
+                rng = Rng(seed * 2000003 + i * 13 + 5)
+                yield ("merger:w:%d:%d" % (seed, i), F.gen_merger_case(rng, stats, focus="C04", force_write=True))
+            return
         for i in range(budget(tier, 300, 5000, mult)):
             rng = Rng(seed * 2000003 + i * 13 + (1 if pid == "C05" else 0))
             yield ("merger:%d:%d" % (seed, i), F.gen_merger_case(rng, stats, focus=pid))
@@ -735,6 +751,13 @@ class MergerFamily(Family):
             if t[0] == "m.next" and not seeked and kind != "iter":
                 return {"C05", "C04"}
             return {"C05"} if (seeked or kind != "iter") else {"C04"}
+        if t[0] == "m.write":
+            a, b = res[idx]["real"], res[idx]["model"]
+            if a.startswith("file ") and b.startswith("file ") and len(a) == len(b):
+                ha, hb = a[5:], b[5:]
+                if len(ha) >= 1024 and ha[:-1024] == hb[:-1024] and ha[-1024 + 144:] == hb[-1024 + 144:]:
+                    return {"C10", "C04"}          # bytes differ only inside the nine counter fields of the trailer
+            return {"C04", "C10", "C09"}
         return {"C04", "C05"}
     def nontrivial(self, pid, lines, res):
         n = sum(1 for l in lines if l.startswith("m.src") and len(l.split(" ")) > 6)
@@ -996,7 +1019,7 @@ reg("C01", ["table", "wa"], TABLE_RULE + "; plus the write-fault family (short w
 reg("C02", ["table"], TABLE_RULE, [LEN32, CODEC])
 reg("C03", ["table"], TABLE_RULE, [LEN32, CODEC, "buffer lifetime (returned key/value stay intact until the next call on that iterator) is a run-time check under ASan, not a theorem"])
 reg("C09", ["table", "wa"], TABLE_RULE + "; every emitted file is byte-identical to the independent encoder's output on the canonical choices (W_refines_format) and re-validated structurally by python (frames contiguous to the index offset, prefix untouched); the same for files written under scripted short writes / EINTR (family wa)", [LEN32, CODEC], generated=["Constants"])
-reg("C10", ["table", "wa"], TABLE_RULE + "; the nine trailer fields from mtbl_metadata_* accessors recounted from the accepted entries and from the frame layout; the trailer and layout of files written under scripted short writes / EINTR (family wa)", [LEN32, "counters below 2^64"], generated=["Constants"])
+reg("C10", ["table", "wa", "merger"], TABLE_RULE + "; tables written by mtbl_source_write (a merger's content copied into a fresh writer, family merger) compared byte for byte, trailer included, with the writer model; index block contents swept across the 127/128 and 16383/16384 length-prefix boundaries; the nine trailer fields from mtbl_metadata_* accessors recounted from the accepted entries and from the frame layout; the trailer and layout of files written under scripted short writes / EINTR (family wa)", [LEN32, "counters below 2^64"], generated=["Constants"])
 reg("C11", ["enc"], "files produced by the Lean independent encoder from random LEGAL choices (v1 and v2, restart at every entry / one per block / random / writer-like, sharing anywhere in 0..lcp, separators anywhere in the legal interval, random block splits, foreign prefixes, all six codecs with payloads compressed by the real library, 32- and 64-bit restart arrays via a lowered threshold compiled into block.c/block_builder.c at run time) read by the real reader: iteration, lookups, seek histories; non-trivial = >= 2 data blocks",
     [LEN32, CODEC, "non-canonical varints are excluded (as in the property)", "the >4 GiB restart-array branch is exercised at a lowered threshold; the theorems are parametric in the threshold"])
 reg("C04", ["merger"], "0..6 sources (real tables with tiny blocks, empty tables, a user-defined source that poisons its previous buffers on every call), overlapping/disjoint/identical key sets incl. the empty key, merge = multiset union of unique 2-byte tokens (so 'each value exactly once' is checkable and fold order cannot differ), no merge function, dupsort, a merge callback failing on a chosen key; non-trivial = >= 2 non-empty sources",
@@ -1194,6 +1217,24 @@ class CzFamily(Family):
     """C15: mtbl_compress / mtbl_compress_level / mtbl_decompress in a child process, every library call the wrappers make
     reported by interposers ("#lib" facts); the Lean wrapper model is run over exactly those facts."""
     name = "cz"
+    def run(self, exe, lines):
+        res = vlib.run_script(exe, lines)
+        # damaged streams (not the output of the compress call just before): the bytes of the output buffer that the library did
+        # not write are whatever malloc returned (the lz4 wrappers report the length of the size prefix): C15 says nothing about
+        # them, so only the verdict and the length are compared.  Round trips are compared exactly.
+        last = None
+        for r in res:
+            t = r["req"].split(" ")
+            if t[0] == "cz.c":
+                last = r["real"].split(" ")[1] if r["real"].startswith("ok ") else None
+            elif t[0] == "cz.d":
+                if last is not None and len(t) > 2 and t[2] == last:
+                    last = None
+                    continue
+                a, b = r["real"], r.get("model")
+                if b and a.startswith("ok ") and b.startswith("ok ") and len(a.strip()) == len(b.strip()):
+                    r["model"] = a
+        return res
     def cases(self, pid, seed, tier, mult, stats):
         for c in self.corpus(pid):
             yield c
@@ -1268,6 +1309,12 @@ class CzFamily(Family):
         for algo in (3, 4):
             for n in (0x7E000001, 0x7FFFFFFF, 0x80000000):
                 lines.append("cz.huge %d %s %d" % (algo, rng.pick(["d", "1", "9"]), n)); stats.bump("cz_lz4_above_its_input_limit")
+        if tier == "thorough" or mult > 1.5:
+            # more than INT_MAX bytes of INCOMPRESSIBLE data (the compressed frame itself exceeds INT_MAX bytes, which the
+            # decompressors refuse as input): compress must report failure.  Gigabytes of memory and about a minute: thorough
+            # tier, and whenever the case budget is enlarged because a proof obligation or the tie broke.
+            for algo in (5,):       # (zlib takes such an input and needs many minutes for it under ASan: not probed)
+                lines.append("cz.huge %d 1 %d random" % (algo, 0x7FFFFFFF + 4098)); stats.bump("cz_incompressible_above_INT_MAX")
         yield ("cz:huge:%d" % seed, lines)
     def oracle(self, res):
         fails = []
@@ -1292,7 +1339,7 @@ class CzFamily(Family):
                     fails.append(("C15", "mtbl_decompress(algo=%s) of damaged input did not return: %s" % (t[1], real[:60]), i))
             elif op == "cz.huge":
                 if real not in ("ok", "cfail", "nomem"):
-                    fails.append(("C15", "%s zero bytes, algo=%s level=%s: %s (compress reported success but its output does not decompress to the input, or the call did not return)" % (t[3], t[1], t[2], real), i))
+                    fails.append(("C15", "%s " + ("incompressible" if len(t) > 4 else "zero") + " bytes, algo=%s level=%s: %s (compress reported success but its output does not decompress to the input, or the call did not return)" % (t[3], t[1], t[2], real), i))
             elif op == "cz.big":
                 if real not in ("ok", "cfail"):
                     fails.append(("C15", "round trip of %s bytes (%s) algo=%s level=%s: %s" % (t[4], t[3], t[1], t[2], real), i))
@@ -1893,7 +1940,7 @@ class ResFamily(Family):
 
 FAMILIES["res"] = ResFamily
 
-reg("C18", ["res"], "well-formed API life-cycle histories (4..30 requests, each run twice in one process: a warm-up pass, then the measured pass) over writers (incl. refused adds), readers (incl. files that are not tables), iterators of all four kinds on readers / mergers / filesets (abandoned undrained or drained), mergers over readers, filesets and other mergers (incl. a failing merge callback), sorters with memory limits from one entry per chunk to no spill, unpooled and on shared pools (destroyed before iteration, after iteration, with chunk jobs in flight), mtbl_sorter_write, a merge callback failing inside a chunk or in the final flush, filesets with dup / reload_now / setfile rewrites, thread pools; objects destroyed in a random legal order at random points; "
+reg("C18", ["res", "open"], "open probes (family open, shared with C19): damaged and truncated tables opened in a child with and without verify_checksums / by descriptor — a call that returns (a reader destroyed again, or NULL) must leave no mapping behind; well-formed API life-cycle histories (4..30 requests, each run twice in one process: a warm-up pass, then the measured pass) over writers (incl. refused adds), readers (incl. files that are not tables), iterators of all four kinds on readers / mergers / filesets (abandoned undrained or drained), mergers over readers, filesets and other mergers (incl. a failing merge callback), sorters with memory limits from one entry per chunk to no spill, unpooled and on shared pools (destroyed before iteration, after iteration, with chunk jobs in flight), mtbl_sorter_write, a merge callback failing inside a chunk or in the final flush, filesets with dup / reload_now / setfile rewrites, thread pools; objects destroyed in a random legal order at random points; "
     "after every request (outside windows with pooled chunk jobs in flight) open descriptors (/proc/self/fd), live reader mappings (mmap shim counter) and files in the sorter's temp directory are compared with the ledger machine; at the end of the history all four must be back at the baseline, heap measured with AddressSanitizer's allocator statistics; non-trivial = at least 6 destroys",
     ["heap is tied only at the end of a history (zero / not zero): allocation counts per request depend on vector growth and are not compared (partial)",
      "descriptor / mapping / temp-file effects of open, dup, close, mmap, mkstemp, unlink are OS contracts",
